@@ -418,6 +418,11 @@ class ProgGen:
         if not any(ws2) or ws2 == ws:
             return
         op2["map"]["weights"] = ws2
+        usable = [n for n, c in self.chans.items() if not c["dmm"] and not c.get("slm_wait") and not c["eom"]
+                  and (not c["local"] or c["targets"])]
+        if usable and r.random() < 0.5:  # something with a number in it in between (a template may turn it into a variable)
+            n = pick(r, usable)
+            self.pending.append({"op": "delay", "duration": gen_duration(r, self.chans[n]["spec"], self.big), "ch": n})
         self.pending.append(op2)
         spec = self.chspecs[op["dmm_id"]]
         name2 = f"{op['dmm_id']}_{cnt + 1}"
